@@ -16,7 +16,7 @@ type Status int
 const (
 	Discharged Status = iota
 	Violated
-	Undecided // counts as violated (fail closed)
+	Undecided  // counts as violated (fail closed)
 	NotDecided // named, counted, never reported (explicitly out of scope)
 )
 
